@@ -29,6 +29,8 @@ func init() {
 			{ID: "C18-R9", Title: "index maps follow their slice through the rollback", Floor: 1, Run: indexMapsFollowTheirSlice},
 			{ID: "C18-R10", Title: "the instruction pointer can be parked at the end of the code", Floor: 1, Run: setIPAcceptsTheEnd},
 			{ID: "C18-R5", Title: "VM-level caches are filled only after the fallible work succeeded (shared with C07-R5)", Floor: 1, Run: c07r5},
+			{ID: "C18-R11", Title: "the halt flag is cleared on every successful start", Floor: 1, Run: haltClearedOnEveryStart},
+			{ID: "C18-R12", Title: "the declaration pre-pass walks every statement", Floor: 2, Run: prePassVisitsEveryStatement},
 		},
 	})
 }
